@@ -8,6 +8,7 @@ package c08
 
 import (
 	"fmt"
+	"math"
 	"sort"
 	"strings"
 	"testing"
@@ -44,10 +45,12 @@ const (
 	durShort          // 10ms
 	durNone           // cache.NoExpiration
 	durLong           // 1h
+	durHuge           // the largest Duration (about 292 years): a positive duration whose deadline lies beyond anything a case reaches
+	nDurs
 )
 
-var durVals = []time.Duration{cache.DefaultExpiration, 10 * time.Millisecond, cache.NoExpiration, time.Hour}
-var durNames = []string{"default", "10ms", "none", "1h"}
+var durVals = []time.Duration{cache.DefaultExpiration, 10 * time.Millisecond, cache.NoExpiration, time.Hour, time.Duration(math.MaxInt64)}
+var durNames = []string{"default", "10ms", "none", "1h", "maxDuration"}
 
 // configurations
 var defExps = []time.Duration{cache.NoExpiration, 0, 50 * time.Millisecond}
@@ -169,9 +172,9 @@ func genOp(s pbt.Src) Op {
 	// weights: mutators and advances dominate, observers follow
 	switch k := s.Intn(20); {
 	case k < 4:
-		return Op{Kind: opSet, Key: s.Intn(3), Val: pick(s, 6), Dur: s.Intn(4)}
+		return Op{Kind: opSet, Key: s.Intn(3), Val: pick(s, 6), Dur: genDur(s)}
 	case k < 6:
-		return Op{Kind: opUpdate, Key: s.Intn(3), Val: pick(s, 6), Dur: s.Intn(4)}
+		return Op{Kind: opUpdate, Key: s.Intn(3), Val: pick(s, 6), Dur: genDur(s)}
 	case k < 7:
 		return Op{Kind: opSetDefault, Key: s.Intn(3), Val: pick(s, 6)}
 	case k < 9:
@@ -183,12 +186,20 @@ func genOp(s pbt.Src) Op {
 	case k < 12:
 		return Op{Kind: []int{opFlush, opDeleteExpired, opDeleteExpired, opCount, opList}[s.Intn(5)]}
 	case k < 13:
-		return Op{Kind: opMapToCache, Key: 1 + s.Intn(7), Val: pick(s, 4), Dur: s.Intn(4)}
+		return Op{Kind: opMapToCache, Key: 1 + s.Intn(7), Val: pick(s, 4), Dur: genDur(s)}
 	case k < 14:
 		return Op{Kind: []int{opCount, opList}[s.Intn(2)]}
 	default:
 		return Op{Kind: opAdvance, Arg: s.Intn(nAdv)}
 	}
+}
+
+// genDur: the four ordinary durations, and the largest Duration one time in nine.
+func genDur(s pbt.Src) int {
+	if i := s.Intn(9); i < 8 {
+		return i % 4
+	}
+	return durHuge
 }
 
 // pick returns 1 with probability 1/n.
@@ -214,7 +225,7 @@ func outOfEnum(c Case, thorough bool) bool {
 		return true
 	}
 	for _, o := range c.Ops {
-		if o.Dur == durLong || (o.Kind != opMapToCache && o.Key == 2) || (o.Kind == opMapToCache && o.Key != 1 && o.Key != 3) {
+		if o.Dur == durLong || o.Dur == durHuge || (o.Kind != opMapToCache && o.Key == 2) || (o.Kind == opMapToCache && o.Key != 1 && o.Key != 3) {
 			return true
 		}
 	}
@@ -263,6 +274,9 @@ func (m *model) deadlineFor(d time.Duration, now int64) int64 {
 		d = m.defExp
 	}
 	if d > 0 {
+		if int64(d) > math.MaxInt64-now {
+			return math.MaxInt64 // the deadline is not representable: later than every instant of the case
+		}
 		return now + int64(d)
 	}
 	return 0
@@ -663,7 +677,7 @@ func TestProp(t *testing.T) {
 		&pbt.Check[Case]{
 			Name: "cache",
 			Rule: "call sequences on cache.New[string,string](default in {-1,0,50ms}, cleanup in {0,20ms}) inside a synctest bubble (virtual clock) against a map-with-deadlines model; " +
-				"operations Set/SetDefault/Update (fresh or rejected empty value; duration default/10ms/none/1h), Get, Delete, Flush, DeleteExpired, Count, List, MapToCache, IsExpired and " +
+				"operations Set/SetDefault/Update (fresh or rejected empty value; duration default/10ms/none/1h, random cases also the largest Duration, whose deadline is not representable), Get, Delete, Flush, DeleteExpired, Count, List, MapToCache, IsExpired and " +
 				"Advance to {next deadline-1ns, deadline, deadline+1ns, next cleanup tick, 1ms, 200ms}; Count/List are checked after every step, every key is read at the end and after a final 200ms. " +
 				"Enumerated: every sequence up to length 3 (thorough 4) over a 50-operation alphabet (2 keys) for all 6 configurations; random: up to 30 (60) operations over 3 keys. " +
 				"Non-trivial = an observation separated from its store by a deadline crossing, a store over an expired key, a DeleteExpired that purges, a cleanup tick with both expired and live entries, or IsExpired answering true. " +
@@ -671,6 +685,11 @@ func TestProp(t *testing.T) {
 			Enum: enum, Gen: gen, Prop: prop, OutOfEnum: outOfEnum,
 			RapidQuick: 1500, RapidThorough: 20000,
 			Bubble: true,
+			Fixed: []Case{
+				// an entry stored for the largest Duration is live, is not reported expired and survives DeleteExpired and cleanup
+				{DefExp: 0, Cleanup: 1, Ops: []Op{{Kind: opSet, Key: 0, Dur: durHuge}, {Kind: opIsExpired, Key: 0}, {Kind: opDeleteExpired}, {Kind: opGet, Key: 0}, {Kind: opAdvance, Arg: advLong}, {Kind: opSet, Key: 0, Dur: durShort}}},
+				{DefExp: 2, Cleanup: 0, Ops: []Op{{Kind: opUpdate, Key: 1, Dur: durHuge}, {Kind: opAdvance, Arg: advTick}, {Kind: opDeleteExpired}, {Kind: opCount}, {Kind: opMapToCache, Key: 3, Dur: durHuge}}},
+			},
 		},
 	)
 }
